@@ -4,6 +4,8 @@
 -/
 import MotoModel.Proofs.DiskChain
 import MotoModel.Proofs.DiskPreserve
+import MotoModel.Proofs.DiskHistory
+import MotoModel.Props.C10
 namespace Moto.C05
 open Moto Moto.Disk
 
@@ -168,5 +170,147 @@ theorem refused_catalog_restores (sd sd' : Side) (bat : List Nat) (content : Byt
             exact getBat_sector sd bat hw hb
           · rw [setBat_other _ _ _ _ (by unfold idx batSector; omega), setBat_other _ _ _ _ (by unfold idx batSector; omega)]
             exact huntouched s h1 h15
+
+/-! ### every history
+
+`SideInv sd bat own` (Proofs/DiskInv.lean) says that `sd` is a consistent file system whose
+table is `bat` and whose catalog slot `i` owns the chain `own i`: well-formed geometry, readable
+table, track 20 reserved, every live entry names a proper chain (starting at its first-block byte,
+no block twice, all inside the table, linked up to a marker C1..C8), at most 255 bytes in a last
+sector, chains of different entries disjoint, and *a block is in use exactly when some live entry
+owns it*.  `ImgOk img`: four sides, each with some such `bat` and `own`. -/
+
+/-- what consistency gives, spelled out in the terms of the property -/
+theorem consistent_side_facts (sd : Side) (bat : List Nat) (own : Nat → List Nat) (inv : SideInv sd bat own) :
+    -- free + used + reserved = 160
+    (computeUsage bat).used + (computeUsage bat).reserved + (computeUsage bat).free = 160
+    -- the used blocks are exactly the blocks of the chains of the live entries
+    ∧ (∀ b, b < 160 → ((isFree (bat.getD b 0) = false ∧ isReserved (bat.getD b 0) = false) ↔
+          ∃ i, i < 112 ∧ liveData (slotData sd i) ∧ b ∈ own i))
+    -- chains of two files share no block
+    ∧ (∀ i j, i < 112 → j < 112 → i ≠ j → liveData (slotData sd i) → liveData (slotData sd j) → ∀ b ∈ own i, b ∉ own j)
+    -- no file owns a reserved block; the table and the catalog (blocks 40, 41) in particular
+    ∧ (∀ i, i < 112 → liveData (slotData sd i) → ∀ b ∈ own i, isReserved (bat.getD b 0) = false ∧ b ≠ 40 ∧ b ≠ 41)
+    -- the catalog decoder finds exactly that chain for every live entry
+    ∧ (∀ i, i < 112 → liveData (slotData sd i) →
+          entryOfBytes (slotData sd i) bat = .ok ⟨1, recordOfBytes (slotData sd i), own i⟩) := by
+  refine ⟨usage_sum_160 sd bat inv.hbat, inv.used, inv.disj, ?_, fun i hi hl => inv.entry i hi hl⟩
+  intro i hi hl b hb
+  obtain ⟨_, _, _, _, _, _, _, hlt⟩ := inv.chain i hi hl
+  have hu := (inv.used b (hlt b hb)).mpr ⟨i, hi, hl, hb⟩
+  refine ⟨hu.2, ?_, ?_⟩
+  · intro h; subst h; have := hu.2; rw [inv.res40] at this; cases this
+  · intro h; subst h; have := hu.2; rw [inv.res41] at this; cases this
+
+/-- **C05 (one `writeFile`, every outcome)**: on a consistent side, `writeFile` either stores the
+    file — in a catalog slot that was not live, owning exactly the blocks chosen among the free
+    ones — and the side is consistent again; or refuses it with a `ValueError` and the side is
+    consistent with the *same table and the same catalog entries* as before.  There is no third
+    outcome: no other exception, no half-done state. -/
+theorem one_write_keeps_consistency {sd : Side} {bat : List Nat} {own : Nat → List Nat} (inv : SideInv sd bat own)
+    (content : Bytes) (name ext : Str) (kind flag : Nat) (hname : ∀ c ∈ name, c ≠ 0xFF) :
+    (∃ sd' i0, writeFile sd content name ext kind flag = .ok sd' ∧ i0 < 112 ∧ ¬ liveData (slotData sd i0)
+        ∧ SideInv sd' (newBat bat content) (fun i => if i = i0 then chosen bat (reqBlocks content.length) else own i)
+        ∧ slotData sd' i0 = newRecord name ext kind flag ((chosen bat (reqBlocks content.length)).getD 0 0) (lastBytesOf content.length)
+        ∧ (∀ j, j < 112 → j ≠ i0 → slotData sd' j = slotData sd j)
+        ∧ (chosen bat (reqBlocks content.length)).length = reqBlocks content.length)
+    ∨ (∃ sd' msg, writeFile sd content name ext kind flag = .raised (.valueError msg) sd' ∧ SideInv sd' bat own
+        ∧ ∀ j, j < 112 → slotData sd' j = slotData sd j) :=
+  writeFile_inv inv content name ext kind flag hname
+
+/-- **C05 (every stored file still reads back intact)** after any `writeFile`, stored or refused -/
+theorem stored_files_survive {sd : Side} {bat : List Nat} {own : Nat → List Nat} (inv : SideInv sd bat own)
+    (content : Bytes) (name ext : Str) (kind flag : Nat) (hname : ∀ c ∈ name, c ≠ 0xFF)
+    (i : Nat) (hi : i < 112) (hl : liveData (slotData sd i)) :
+    (∃ sd' i0, writeFile sd content name ext kind flag = .ok sd' ∧ i0 ≠ i ∧ slotData sd' i = slotData sd i
+        ∧ fileOf sd' (newBat bat content) (fun j => if j = i0 then chosen bat (reqBlocks content.length) else own j) i = fileOf sd bat own i)
+    ∨ (∃ sd' msg, writeFile sd content name ext kind flag = .raised (.valueError msg) sd' ∧ slotData sd' i = slotData sd i
+        ∧ getBat sd' = .ok bat ∧ fileOf sd' bat own i = fileOf sd bat own i) :=
+  writeFile_keeps_files inv content name ext kind flag hname i hi hl
+
+/-- the image `--create` starts from is consistent -/
+theorem fresh_image_consistent : ImgOk ((List.replicate 4 blankSide).map initFileSystem) := fresh_img_ok
+
+/-- **C05 (one invocation)**: on a consistent image, a create/add batch — any sources, found or
+    not, of any size, any number of end-of-side markers, any number of refusals — runs to its end
+    without an exception and leaves four consistent sides. -/
+theorem every_run_keeps_consistency (w : Tape.World) (verbose : Bool) (img : Image) (srcs : List Str)
+    (himg : ImgOk img) (hs : ∀ src ∈ srcs, CleanSrc src) :
+    ∃ st, performCore w verbose img srcs = .ok st ∧ ImgOk st.img :=
+  performCore_ok w verbose img srcs himg hs
+
+/-- the image after a history of invocations, each with its own files on disk, verbosity and sources -/
+def imageAfter (img : Image) : List (Tape.World × Bool × List Str) → Image
+  | [] => img
+  | (w, v, srcs) :: rest =>
+    match performCore w v img srcs with
+    | .ok st => imageAfter st.img rest
+    | .error _ => imageAfter img rest
+
+/-- **C05 (every history)**: after `--create` and any sequence of `--add` invocations, every side of
+    the image is a consistent file system. -/
+theorem every_history_consistent (hist : List (Tape.World × Bool × List Str))
+    (hs : ∀ r ∈ hist, ∀ src ∈ r.2.2, CleanSrc src) :
+    ImgOk (imageAfter ((List.replicate 4 blankSide).map initFileSystem) hist) := by
+  have key : ∀ (hist : List (Tape.World × Bool × List Str)) (img : Image), ImgOk img →
+      (∀ r ∈ hist, ∀ src ∈ r.2.2, CleanSrc src) → ImgOk (imageAfter img hist) := by
+    intro hist
+    induction hist with
+    | nil => intro img h _; exact h
+    | cons r rest ih =>
+      intro img h hs
+      obtain ⟨w, v, srcs⟩ := r
+      obtain ⟨st, hst, hok⟩ := performCore_ok w v img srcs h (hs (w, v, srcs) (by simp))
+      simp only [imageAfter, hst]
+      exact ih st.img hok (fun r hr => hs r (by simp [hr]))
+  exact key hist _ fresh_img_ok hs
+
+/-- non-vacuity: the fresh side satisfies the invariant, with an empty catalog -/
+example : SideInv freshSide freshBat (fun _ => []) := fresh_inv
+
+/-- the archive after a history of invocations: `--create`, then `--add`s, each on the bytes the
+    previous invocation wrote (`none` if some invocation did not write its archive) -/
+def archiveAfter (fl : Flavour) (archive : Str) : List (Tape.World × Bool × List Str) → Option Bytes
+  | [] => none
+  | (w, v, srcs) :: rest =>
+    let step (prev : Option Bytes) (r : Tape.World × Bool × List Str) : Option Bytes :=
+      match prev with
+      | none => none
+      | some raw => match (add fl r.1 r.2.1 archive raw r.2.2).writes with
+        | [(_, bytes)] => some bytes
+        | _ => none
+    rest.foldl step (match (create fl w v archive srcs).writes with | [(_, bytes)] => some bytes | _ => none)
+
+/-- **C05 (every history, at the level of the archive file)**: after `--create` and any sequence
+    of `--add` invocations on the file, the archive exists and is the serialisation of four
+    consistent sides. -/
+theorem every_archive_consistent (fl : Flavour) (archive : Str) (hist : List (Tape.World × Bool × List Str))
+    (hne : hist ≠ []) (hs : ∀ r ∈ hist, ∀ src ∈ r.2.2, CleanSrc src) :
+    ∃ img, ImgOk img ∧ archiveAfter fl archive hist = some (save fl img) := by
+  obtain ⟨r0, rest, rfl⟩ := List.exists_cons_of_ne_nil hne
+  obtain ⟨w, v, srcs⟩ := r0
+  simp only [archiveAfter]
+  obtain ⟨img1, hok1, _, hw1⟩ := C10.create_always_completes fl w v archive srcs (hs (w, v, srcs) (by simp))
+  rw [hw1]
+  dsimp only
+  have key : ∀ (rest : List (Tape.World × Bool × List Str)) (img : Image), ImgOk img →
+      (∀ r ∈ rest, ∀ src ∈ r.2.2, CleanSrc src) →
+      ∃ img', ImgOk img' ∧ rest.foldl (fun (prev : Option Bytes) (r : Tape.World × Bool × List Str) =>
+        match prev with
+        | none => none
+        | some raw => match (add fl r.1 r.2.1 archive raw r.2.2).writes with
+          | [(_, bytes)] => some bytes
+          | _ => none) (some (save fl img)) = some (save fl img') := by
+    intro rest
+    induction rest with
+    | nil => intro img h _; exact ⟨img, h, rfl⟩
+    | cons r rest ih =>
+      intro img h hs'
+      simp only [List.foldl_cons]
+      rw [add_on_saved fl r.1 r.2.1 archive img r.2.2 h]
+      obtain ⟨img2, hok2, _, hw2⟩ := C10.always_completes fl r.1 r.2.1 archive img r.2.2 h (hs' r (by simp))
+      rw [hw2]
+      exact ih img2 hok2 (fun r' hr' => hs' r' (by simp [hr']))
+  exact key rest img1 hok1 (fun r hr => hs r (by simp [hr]))
 
 end Moto.C05
